@@ -1,11 +1,11 @@
 #!/bin/bash
 # Runs every registered quick (or thorough) check sequentially; prints one summary line each.
-#   tools/run_all.sh [quick|thorough] [logdir]
+#   [CHECKS="C01 C02"] tools/run_all.sh [quick|thorough] [logdir]
 tier=${1:-quick}
 logs=${2:-/tmp}
 cd "$(dirname "$0")/.."
 mkdir -p "$logs"
-for p in C20 C17 C18 C19 C09 C10 C13 C01 C08 C03 C02 C04 C05 C06 C07 C11 C12 C14 C15 C16; do
+for p in ${CHECKS:-C20 C17 C18 C19 C09 C10 C13 C01 C08 C03 C02 C04 C05 C06 C07 C11 C12 C14 C15 C16}; do
   s=$(date +%s)
   /venv/bin/python -W ignore -m vf.run $p --tier $tier > $logs/runall_$p.log 2>&1
   rc=$?
